@@ -8,7 +8,7 @@ import (
 // RV is a parsed rule value (annotation object syntax: JSON with bare keys and a
 // bare @name allowed as value).
 type RV struct {
-	Kind  byte // 'o' 'a' 's' 'n' 'b' 'z' 'r'(bare @ref)
+	Kind  byte   // 'o' 'a' 's' 'n' 'b' 'z' 'r'(bare @ref)
 	Text  string // raw text for n/b/z/r, decoded text for s
 	Keys  []string
 	Items []RV
